@@ -108,11 +108,12 @@ def make_judges(ctx):
             return
         if ev.op == '__init__':
             d = si.init_args or {}
-            if d.get('like') is not None or getattr(Fxp, 'template', None) is not None:
-                ctx.skip('write:constructor with like/template')
+            if getattr(Fxp, 'template', None) is not None or d.get('template') is not None:
+                ctx.skip('write:constructor with a class template')
                 return
+            # a new object starts with a clear status record, also when it is built like= a template whose flags are raised
             pre_status = {}
-            kind = 'constructor'
+            kind = 'constructor' if d.get('like') is None else 'constructor_like'
         else:
             pre_status = si.pre.status if si.pre is not None else {}
             kind = 'indexed' if si.index is not None else 'write'
@@ -241,7 +242,7 @@ def make_judges(ctx):
 
 
 def floors(tier):
-    cells = [('raised', k, f) for k in ('write', 'indexed', 'constructor', 'resize') for f in _FL]
+    cells = [('raised', k, f) for k in ('write', 'indexed', 'constructor', 'resize') for f in _FL] + [('raised', 'constructor_like', 'inaccuracy')]
     cells += [('callbacks', k) for k in ('write', 'indexed', 'resize')]
     cells += [('reset', True), ('propagation', 'binary'), ('propagation', 'function'), ('propagation', 'numpy'), ('propagation', 'method'),
               ('propagation', 'Fxp(x)'), ('propagation', 'Fxp(x, like=)')]
@@ -323,7 +324,27 @@ def run_case(case, ctx):
                 out.append(float(v))
             return out
         for step in range(rng.randint(1, 8)):
-            c = rng.choice(['write', 'write', 'write', 'indexed', 'indexed', 'reset', 'resize', 'read'])
+            c = rng.choice(['write', 'write', 'write', 'indexed', 'indexed', 'reset', 'resize', 'read', 'write_fxp', 'like_ctor'])
+            if c == 'write_fxp':
+                # a write whose value is another (exact, fitting) Fxp must not clear a raised flag either
+                lo_, hi_ = R.code_range(x.signed, x.n_word)
+                src = Fxp(rng.randint(lo_, hi_) if rank == 0 else [rng.randint(lo_, hi_) for _ in range(int(np.prod(shape)))], x.signed, x.n_word, x.n_frac, raw=True)
+                if rank == 2:
+                    src = Fxp(np.asarray(src.val).reshape(shape), x.signed, x.n_word, x.n_frac, raw=True)
+                how = rng.choice(['call', 'set_val', 'equal', 'index'])
+                if how == 'index' and rank:
+                    _try(lambda: x.__setitem__(0, src[0]))
+                elif how == 'equal':
+                    _try(lambda: x.equal(src))
+                else:
+                    _try(lambda: x(src) if how == 'call' else x.set_val(src))
+                continue
+            if c == 'like_ctor':
+                # objects built from a template whose flags are raised start with a clear record
+                v = vals(1)[0]
+                _try(lambda: Fxp(v, like=x))
+                _try(lambda: Fxp(np.array(vals(2)), like=x))
+                continue
             if c == 'write':
                 if rank == 0:
                     v = vals(1)[0]
